@@ -5,6 +5,7 @@ use vstd::prelude::*;
 verus! {
 //@@ INCLUDE lib/round_prelude.rs
 //@@ INCLUDE lib/round_int_stubs.rs
+//@@ INCLUDE lib/round_int_addsub_stubs.rs
 //@@ INCLUDE lib/round_ratio_stubs.rs
 //@@ INCLUDE lib/round_ratio_lemmas.rs
 
@@ -15,7 +16,12 @@ pub struct Repr {
 }
 impl Repr {
 //@@ FN rational/round/zero.rs
+//@@ FN rational/round/split_at_point.rs
 //@@ FN rational/round/ceil.rs
+//@@ FN rational/round/floor.rs
+//@@ FN rational/round/trunc.rs
+//@@ FN rational/round/fract.rs
+//@@ FN rational/round/round.rs
 }
 } // verus!
 fn main() {}
